@@ -28,7 +28,10 @@ vars == <<ver, gen, ring, nonce, nconn, c>>
 Min(a, b) == IF a < b THEN a ELSE b
 Range(s) == {s[i] : i \in DOMAIN s}
 \* extra: bytes in the body of the Hand / Shake frame behind what the message needs
-NoMsg == [version |-> 0, genesis |-> "", nonce |-> 0, extra |-> 0]
+\* over:  "" or the length the frame header announces when that is above the limit of the message
+\*        type (4 x 128 for Hand, 4 x 88 for Shake), as a decimal string: the u64 field goes far
+\*        beyond TLC's integers
+NoMsg == [version |-> 0, genesis |-> "", nonce |-> 0, extra |-> 0, over |-> ""]
 Out(r, v) == [res |-> r, version |-> v]
 Idle == [stage |-> "idle", from |-> "", to |-> "", hand |-> NoMsg, shake |-> NoMsg,
          resI |-> Out("none", 0), resA |-> Out("none", 0)]
@@ -38,12 +41,14 @@ Push(r, n) == LET r2 == Append(r, n) IN IF Len(r2) >= RingCap THEN Tail(r2) ELSE
 
 \* Handshake::accept on a Hand message h, by a node with version lv, genesis g, nonce ring rg
 AcceptOutcome(lv, g, rg, h) ==
-  IF h.extra > 0 THEN Out("badlen", 0)       \* the statement: length inconsistent with the content is refused
+  IF h.over # "" THEN Out("toolarge", 0)     \* refused on the 11 header bytes (MsgHeaderWrapper::read), nothing of the body read
+  ELSE IF h.extra > 0 THEN Out("badlen", 0)  \* the statement: length inconsistent with the content is refused
   ELSE IF h.genesis # g THEN Out("genesis", 0)
   ELSE IF h.nonce \in Range(rg) THEN Out("self", 0)
   ELSE Out("ok", Min(lv, h.version))          \* negotiate_protocol_version
 \* Handshake::initiate on the Shake reply s
 InitiateOutcome(lv, g, s) ==
+  IF s.over # "" THEN Out("toolarge", 0) ELSE
   IF s.extra > 0 THEN Out("badlen", 0) ELSE
   IF s.genesis # g THEN Out("genesis", 0) ELSE Out("ok", Min(lv, s.version))
 
@@ -55,7 +60,7 @@ Start(a, b) ==
   /\ ring' = [ring EXCEPT ![a] = Push(ring[a], nonce)]
   /\ nonce' = nonce + 1 /\ nconn' = nconn + 1
   /\ c' = [Idle EXCEPT !.stage = "handSent", !.from = a, !.to = b,
-                       !.hand = [version |-> ver[a], genesis |-> gen[a], nonce |-> nonce, extra |-> 0]]
+                       !.hand = [version |-> ver[a], genesis |-> gen[a], nonce |-> nonce, extra |-> 0, over |-> ""]]
   /\ UNCHANGED <<ver, gen>>
 
 Accept ==
@@ -63,7 +68,7 @@ Accept ==
   /\ LET b == c.to  o == AcceptOutcome(ver[b], gen[b], ring[b], c.hand) IN
      c' = IF o.res = "ok"
           THEN [c EXCEPT !.stage = "shakeSent", !.resA = o,
-                         !.shake = [version |-> ver[b], genesis |-> gen[b], nonce |-> 0, extra |-> 0]]
+                         !.shake = [version |-> ver[b], genesis |-> gen[b], nonce |-> 0, extra |-> 0, over |-> ""]]
           ELSE [c EXCEPT !.stage = "closed", !.resA = o, !.resI = Out("closed", 0)]
   /\ UNCHANGED <<ver, gen, ring, nonce, nconn>>
 
